@@ -90,7 +90,8 @@ pub fn scenario(run: u64, rng: &mut SmallRng) {
     // address only the k-th gets through (k = 1..10, often the last of the retry budget; 11 = none); replies pass
     let only_kth: u32 = if rng.gen_range(0..5) == 0 { [1u32, 2, 9, 10, 10, 10, 11][rng.gen_range(0..7)] } else { 0 };
     // machine k owns 10.k.0.1 and (sometimes) 10.k.0.2; subnets are byte aligned
-    let addr = |k: usize, j: u8| -> [u8; 4] { [10, k as u8, 0, j] };
+    // (addresses differ in bits that masks of every length cut through)
+    let addr = |k: usize, j: u8| -> [u8; 4] { [10, (k * 40) as u8, (k * 16) as u8, j] };
     let mut claims: Vec<Vec<[u8; 4]>> = vec![];
     for k in 0..nm {
         let mut c = vec![addr(k, 1)];
@@ -105,7 +106,7 @@ pub fn scenario(run: u64, rng: &mut SmallRng) {
     let mut subnets: Vec<Option<(u32, [u8; 4])>> = vec![];
     for _k in 0..nm {
         subnets.push(if rng.gen_range(0..3) == 0 {
-            let mask = [0u32, 8, 16, 24, 32][rng.gen_range(0..5)];
+            let mask = [0u32, 8, 16, 24, 32, 12, 13, 20, 21, 27, 30, 9][rng.gen_range(0..12)];
             let gw = if rng.gen_range(0..4) == 0 { [10, 77, 0, 1] } else { addr(rng.gen_range(0..nm), 1) };
             Some((mask, gw))
         } else {
@@ -124,7 +125,7 @@ pub fn scenario(run: u64, rng: &mut SmallRng) {
         };
         calls[m].push(Call { at_us: [0u64, 0, 0, 150_000, 1_900_000, 2_100_000, 500_000][rng.gen_range(0..7)], rid, local: addr(m, 1), remote });
     }
-    let sj: Vec<Value> = subnets.iter().map(|s| match s { Some((m, g)) => json!({"set":true,"mask":m,"gw":g}), None => json!({"set":false,"mask":0,"gw":[0,0,0,0]}) }).collect();
+    let sj: Vec<Value> = subnets.iter().map(|s| match s { Some((m, g)) => json!({"set":true,"mask":m,"gw":g}), None => json!({"set":false,"mask":0,"gw":[0,0,0,0]}) }).enumerate().map(|(k, mut v)| { v["addr"] = json!(addr(k, 1)); v }).collect();
     begin_run(run, json!({"nm":nm,"lat":lat,"loss":loss,"only_kth":only_kth,"subnets":sj}));
     let machines: Vec<Arc<Machine>> = (0..nm)
         .map(|k| {
